@@ -297,6 +297,11 @@ type encoderBase struct {
 
 	bytes bool
 
+	// side: this is a side encoder (sideEncode): its output is spliced verbatim into another
+	// stream (canonical map keys, extension payloads), possibly reordered, and the encoder is
+	// pooled across streams. It must not use per-stream driver state (e.g. binc symbols).
+	side bool
+
 	c containerState
 
 	calls uint16
@@ -324,6 +329,8 @@ func (e *encoderBase) HandleName() string {
 // This method is kept for compatibility reasons only.
 func (e *encoderBase) Release() {
 }
+
+func (e *encoderBase) markSide() { e.side = true }
 
 func (e *encoderBase) setContainerState(cs containerState) {
 	if cs != 0 {
@@ -404,6 +411,7 @@ type encoderI interface {
 	encodeAs(v interface{}, t reflect.Type, ext bool)
 
 	setContainerState(cs containerState) // needed for canonical encoding via side encoder
+	markSide()                           // called by sideEncode on every side encoder
 }
 
 var errEncNoResetBytesWithWriter = errors.New("cannot reset an Encoder which outputs to []byte with a io.Writer")
@@ -448,6 +456,7 @@ func sideEncode(h Handle, p *sync.Pool, fn func(encoderI)) {
 		// s = NewEncoderBytes(nil, h).encoderI
 		s = p.New().(encoderI)
 	}
+	s.markSide()
 	fn(s)
 }
 
